@@ -243,6 +243,18 @@ def mutations():
     m('bits-overlimit', lambda c: c.__setitem__('bits', 0x21008000), mine=False)
     m('bits-overflow', lambda c: c.__setitem__('bits', 0x23000001), mine=False)
     m('hash-above-target', lambda c: c.__setitem__('bits', 0x1d00ffff), mine=False)
+
+    def overflow_low_bits(c, bits, low_target):
+        # an OVERFLOWING compact target whose low 256 bits alone would be a fine target, with a hash mined below those low bits:
+        # refused all the same (the value does not fit 256 bits)
+        c['bits'] = bits
+        c['root'] = M.merkle_root([W.txid(t) for t in c['txs']]) if c['txs'] else bytes(32)
+        for nn in range(200000):
+            c['nonce'] = nn
+            if int.from_bytes(H.dsha(W.enc_header(c)), 'little') <= low_target:
+                break
+    m('bits-overflow-low-bits-fine', lambda c: overflow_low_bits(c, 0x2201007f, 0x7f << 248), mine=False, commit=True)
+    m('bits-overflow-low-bits-fine-2', lambda c: overflow_low_bits(c, 0x2101007f, 0x7f << 240), mine=False)
     m('commit-wrong', lambda c: c['txs'][0]['vout'].__setitem__(-1, (0, MAGIC + b'\x09' * 32)) if has_wit(c) else False, commit=False)
     m('commit-missing', lambda c: (c['txs'][0]['vout'].pop(), None)[1] if has_wit(c) else False, commit=False)
     m('commit-decoy-after', lambda c: c['txs'][0]['vout'].append((0, MAGIC + b'\x09' * 32)) if has_wit(c) else False, commit=False)
